@@ -123,3 +123,58 @@ Example C07_url_port_inhabited :
   /\ url_port [117; 64; 233; 46; 99; 111; 109; 58; 56; 48; 56; 48; 47; 58; 120] = Ok (Some 8080).
 Proof. split; vm_compute; reflexivity. Qed.
 Print Assumptions C07_url_port_inhabited.
+
+(* ------------------------------------------------------------------ Cache-Control, CSP, dates *)
+Theorem C07_total_parse_cache_control : forall v, exists d, parse_cache_control v = Ok d.
+Proof. exact parse_cache_control_total. Qed.
+Print Assumptions C07_total_parse_cache_control.
+(* every typed cache-control getter: the int conversion's ValueError is the only error and it is handled *)
+Theorem C07_total_cache_control_getter : forall d key empty ty, exists v, cc_get_e d key empty ty = Ok v.
+Proof. exact cc_get_e_total. Qed.
+Print Assumptions C07_total_cache_control_getter.
+Theorem C07_total_parse_csp : forall v, exists d, parse_csp_e v = Ok d.
+Proof. exact parse_csp_e_total. Qed.
+Print Assumptions C07_total_parse_csp.
+(* parse_date over the email.utils contract: whatever parsedate_to_datetime is, if it raises nothing but TypeError,
+   ValueError (incl. its subclasses) and OverflowError, parse_date returns; the except clause is the regenerated one,
+   so narrowing it breaks this proof *)
+Theorem C07_total_parse_date : forall (D : Type) (parsedate : str -> res D),
+  (forall s e, parsedate s = Err e -> is_type_error e || is_value_error e || is_overflow_error e = true) ->
+  forall v, exists o, parse_date_over parsedate v = Ok o.
+Proof. exact parse_date_over_total. Qed.
+Print Assumptions C07_total_parse_date.
+
+(* ------------------------------------------------------------------ Request attributes composed of the modelled parsers *)
+(* environ_ok: every client-controlled variable is Latin-1 text without a line feed (what a WSGI server delivers).
+   Each attribute returns a value: stronger than value-or-HTTPException. *)
+Theorem C07_total_request_args : forall e, environ_ok e = true -> exists t, request_args e = Ok t.
+Proof. exact request_args_total. Qed.
+Print Assumptions C07_total_request_args.
+Theorem C07_total_request_cookies : forall e, environ_ok e = true -> exists l, request_cookies e = Ok l.
+Proof. exact request_cookies_total. Qed.
+Print Assumptions C07_total_request_cookies.
+Theorem C07_total_request_authorization : forall e, exists a, request_authorization e = Ok a.
+Proof. exact request_authorization_total. Qed.
+Print Assumptions C07_total_request_authorization.
+Theorem C07_total_request_range : forall e, exists r, request_range e = Ok r.
+Proof. exact request_range_total. Qed.
+Print Assumptions C07_total_request_range.
+Theorem C07_total_request_if_match : forall e, environ_ok e = true ->
+  (exists t, request_if_match e = Ok t) /\ (exists t, request_if_none_match e = Ok t).
+Proof. exact request_if_match_total. Qed.
+Print Assumptions C07_total_request_if_match.
+Theorem C07_total_request_content_length : forall e, exists n, request_content_length e = Ok n.
+Proof. exact request_content_length_total. Qed.
+Print Assumptions C07_total_request_content_length.
+Theorem C07_total_request_mimetype_params : forall e, exists o, request_mimetype_params e = Ok o.
+Proof. exact request_mimetype_params_total. Qed.
+Print Assumptions C07_total_request_mimetype_params.
+Theorem C07_total_request_cache_control : forall e, exists d, request_cache_control e = Ok d.
+Proof. exact request_cache_control_total. Qed.
+Print Assumptions C07_total_request_cache_control.
+Example C07_environ_inhabited :
+  environ_ok {| e_query := [97; 61; 255]; e_cookie := Some [97; 61; 34; 92; 52; 48; 48; 34]; e_authorization := Some [66; 97; 115; 105; 99; 32; 255];
+                e_range := Some [98; 121; 116; 101; 115; 61; 53; 45; 52]; e_if_match := Some [34; 97]; e_if_none_match := None;
+                e_content_length := Some [120]; e_transfer_encoding := None; e_content_type := Some [97; 59; 42; 61; 98]; e_cache_control := Some [42; 61; 120] |} = true.
+Proof. vm_compute. reflexivity. Qed.
+Print Assumptions C07_environ_inhabited.
